@@ -107,6 +107,7 @@ def run(sid, props):
                 print("   ", l[:240])
     finally:
         sh("git -C /repo checkout -- . && git -C /repo clean -fdq")
+        sh([os.path.join(VERIF, "check"), "extract"], cwd=VERIF, timeout=900)  # generated facts back to the clean tree
     meta["checks"] = results
     json.dump(meta, open(meta_p, "w"), indent=1)
 
